@@ -269,8 +269,16 @@ func runC06(c *eng.Ctx) {
 	c.Rule("LAYOUT", "pkg/queue.consumer-group-meta", func() {
 		offs := map[string]map[int64]bool{"consumed": {}, "ack": {}}
 		n := 0
-		for _, f := range p.FuncsWithPrefix(cgT + ".") {
-			for _, s := range p.SitesDirect(f, invokeOn(".metaPage", "PutUint64")) {
+		seenW := map[ssa.Instruction]bool{}
+		for _, f0 := range p.FuncsWithPrefix(cgT + ".") {
+			// counted per method that performs the write (itself or through a helper it enters); classified once per site
+			for _, s := range p.Sites(f0, invokeOn(".metaPage", "PutUint64")) {
+				f := s.Instr.Parent()
+				if seenW[s.Instr] {
+					n++
+					continue
+				}
+				seenW[s.Instr] = true
 				args := eng.CallArgs(s.Instr.(*ssa.Call))
 				off, ok := eng.ConstInt(args[1])
 				d := p.Desc(args[0])
